@@ -51,6 +51,12 @@ claim("C12",
       "Coq proof (list induction, induction over run sequences, nested tree induction) + lockstep correspondence + pattern/record oracle",
       "DESIGN.md 3 C12")
 
+claim("C05",
+      "Theorems, for every content type and digest function (so every byte position and kind of edit is covered; an edit that keeps the digest is a collision of the reference hash): the chain check passes exactly when every chain entry names an existing manifest whose content has the recorded digest; a changed manifest, a missing manifest and a missing chain file make it fail with one of the dedicated codes, which are 31 / 33 / 32 (obligations on the constants regenerated from errors.py); loading succeeds only if EVERY history of the tree -- root and nested, at any depth -- passes the check (nested induction over the tree); every history-reading command (create, create -sf, verify / verify -sf, diff, verify -dh, info, info -sf, flatten) then returns the loader's code together with the unchanged tree, no written generation and no file-system operation. Tied to the code by lockstep runs with one fault (flip / insert / delete / truncate / append at a random position of any manifest of any history, removal of a manifest or chain) followed by the eight commands, with a byte snapshot of the whole tree and the flatten destination before and after.",
+      "Collision resistance of SHA-512/C4 is not provable: cdig is abstract and 'detected' means 'digest differs'. With several simultaneous faults the first failing chain entry decides between 31 and 33 (proved as a disjunction).",
+      "Coq proof (characterisation of the chain check, nested tree induction for all depths, unfolding of every command) + regenerated exit codes + lockstep fault-injection correspondence with byte snapshots",
+      "DESIGN.md 3 C05")
+
 PENDING = "check under construction (planned: proof + correspondence, see DESIGN.md section 3)"
 
 
